@@ -229,9 +229,6 @@ func (r *rec) command() {
 	t := r.peek()
 	switch {
 	case t.K == Arith:
-		if len(r.ctx) > 0 {
-			panic(fail{Unsure}) // go.sh recognises "((" only outside parentheses (known finding)
-		}
 		r.i++
 		r.redirects(true)
 		return
